@@ -239,6 +239,7 @@ pub struct Report {
     /// Set when the driver is stateless per line: large batches are then split over several
     /// driver processes.
     pub parallel_model: bool,
+    sig_counts: BTreeMap<String, u64>,
     /// (request line, implementation answer) queued for the model.
     pending: Vec<(String, String)>,
 }
@@ -258,6 +259,7 @@ impl Report {
             n_violations: 0,
             extra: BTreeMap::new(),
             parallel_model: false,
+            sig_counts: BTreeMap::new(),
             pending: vec![],
         }
     }
@@ -284,7 +286,12 @@ impl Report {
     /// `sig` is the specific signature matched against known_findings.json.
     pub fn violation(&mut self, sig: Value, what: &str, replay: Value) {
         self.n_violations += 1;
-        if self.violations.len() < 40 {
+        // keep a few examples PER DISTINCT SIGNATURE so that a flood of one (possibly known)
+        // class can never hide a different one
+        let key = sig.to_string();
+        let seen = self.sig_counts.entry(key).or_insert(0);
+        *seen += 1;
+        if *seen <= 3 && self.violations.len() < 600 {
             self.violations
                 .push(json!({"sig": sig, "what": what, "replay": replay}));
         }
@@ -331,6 +338,7 @@ impl Report {
             "disagreements": self.disagreements,
             "n_violations": self.n_violations,
             "violations": self.violations,
+            "violation_signatures": self.sig_counts,
             "extra": self.extra,
         });
         std::fs::write(&args.out, serde_json::to_string_pretty(&v).unwrap()).unwrap();
